@@ -1,8 +1,213 @@
-import Magog.Model.Eval
-import Magog.Model.Time
+import Magog.Lemmas.Stack
+import Magog.Lemmas.Count
+import Magog.Model.Start
 
-/-! Property C16 — theorems (see DESIGN §5). -/
+/-! Property C16 — query commands never change the game position: the `PushMove` / `PopMove` discipline and
+    the in-place turn flip of `LazyEvaluate`.
+
+    **What is modelled where.** The functional model (`Model/MoveGen.lean`, `Model/Search.lean`,
+    `Model/Eval.lean`) passes positions *by value*: `perft`, `alphaBeta`, `quiescence`, the root loop and
+    `lazyEvaluate` receive a `Position` and can only return results, so in that model an unbalanced push/pop or a
+    flag left flipped cannot even be written down, and "the caller's position is unchanged" holds by
+    construction. To make the discipline a provable statement about the data the Go code really mutates,
+    `Model/Stack.lean` adds an explicit stack machine `GenS` (`posStack`, `plyIdx`) with `pushMove` / `popMove`,
+    stack versions `perftS` / `perftTacticalS` of `Generator.Perft` / `PerftTactical`, and the literal,
+    mutating `lazyEvaluateInPlace`.
+
+    * (a) `push_pop`: un-making restores the previous position bit for bit (copy-make: the slot below is never
+      written).
+    * (b) `perftS_balanced`, `perftTacticalS_balanced`: the perft commands return the generator with the same
+      `plyIdx` and the same slots `0 … plyIdx` (in particular the game position, slot `plyIdx` itself).
+    * (c) `perftS_refines`, `perftTacticalS_refines` (and the converses `…_complete`): the stack machine computes
+      exactly what the functional `perft` / `perftTactical` compute, so everything proved about those (C06)
+      transfers to the stack machine.
+    * (d) `withMove_balanced`: the generic bracket lemma. **The search model itself (`alphaBeta`, `quiescence`,
+      `rootLoop`) is functional**; it has not been re-modelled on the stack. Every `PushMove … PopMove` pair of
+      search.go has the shape `withMove g m k` with `k` the recursive call; (d) says that such a bracket is
+      balanced whenever its body is, which by induction on the call tree gives balance of the whole search.
+      C16 for `go` is therefore covered by (d) *plus* the by-value search model (whose faithfulness to the Go
+      code, including the position each node sees, is checked by differential testing), not by a theorem about a
+      stack-machine `alphaBeta`. `perftS_balanced` is the fully worked instance of that induction.
+    * (e) `lazyEvaluateInPlace_restores`: the double flip `flags ^ FlagWhiteTurn ^ FlagWhiteTurn` is the
+      identity, on every path (mate, lazy cut-off, own mobility 0 do not flip at all), and the mutating version
+      computes what `lazyEvaluate` computes. -/
 
 namespace Magog.Props.C16
+open Magog Magog.Model Magog.Count
+
+/-! ### (a) push / pop -/
+
+/-- Un-making a move restores the previous state: the index comes back and no slot at or below the old index
+    was written (the pushed position lives in slot `idx + 1`, which is left as garbage above the top). -/
+theorem push_pop {g g' : GenS} {m : Move} {b : Bool} (h : pushMove g m = .ok (g', b)) :
+    (popMove g').idx = g.idx ∧ ∀ i ≤ g.idx, (popMove g').stack[i]? = g.stack[i]? :=
+  let hb := push_pop_balanced h
+  ⟨hb.idx, hb.frame⟩
+
+/-- in particular the position on top after the pop is the position that was on top before the push, and the
+    buffer keeps its size -/
+theorem push_pop_top {g g' : GenS} {m : Move} {b : Bool} (h : pushMove g m = .ok (g', b)) :
+    (popMove g').top = g.top ∧ (popMove g').stack.size = g.stack.size :=
+  let hb := push_pop_balanced h
+  ⟨hb.top, hb.size⟩
+
+/-- what `pushMove` does: the new top is `makeMove` of the old top, one slot higher; it panics only at the last
+    slot, on an empty top, or when `makeMove` panics -/
+theorem pushMove_spec {g g' : GenS} {m : Move} {b : Bool} (h : pushMove g m = .ok (g', b)) :
+    g'.idx = g.idx + 1 ∧ g'.stack.size = g.stack.size ∧
+      ∃ p q, g.top = some p ∧ makeMove p m = .ok (q, b) ∧ g'.top = some q :=
+  ⟨pushMove_idx h, pushMove_size h, pushMove_top h⟩
+
+/-- the e2e4 push on a fresh generator: index 1, legal, slot 0 still holds the start position's board and
+    flags, slot 1 has the pawn on e4, black to move and the en-passant square e3; after the pop the index is 0
+    again -/
+example :
+    okVal ((pushMove (GenS.new startPosition) ⟨0x14, 0x34, 0, 0x24⟩).map fun r =>
+      (r.1.idx, r.2, r.1.stack.size, (popMove r.1).idx)) = some (1, true, Gen.plyBufferCapacity, 0) ∧
+    okVal ((pushMove (GenS.new startPosition) ⟨0x14, 0x34, 0, 0x24⟩).map fun r =>
+      r.1.stack[0]?.map fun p => (p.board[0x14]?, p.board[0x34]?, p.flags)) =
+      some (some (some Gen.WPawn, some 0, Gen.startFlags)) ∧
+    okVal ((pushMove (GenS.new startPosition) ⟨0x14, 0x34, 0, 0x24⟩).map fun r =>
+      r.1.stack[1]?.map fun p => (p.board[0x14]?, p.board[0x34]?, p.flags &&& FWhiteTurn, p.ep)) =
+      some (some (some 0, some Gen.WPawn, 0, 0x24)) := by decide +kernel
+
+/-- `pushMove` panics on the last slot (Go: index out of range on `posStack[plyIdx+1]`) -/
+example : okVal (pushMove { stack := #[startPosition], idx := 0 } ⟨0x14, 0x34, 0, 0x24⟩) = none := by
+  decide +kernel
+
+/-! ### (b) the perft commands are balanced -/
+
+/-- `Perft` returns the generator with the same `plyIdx` and all slots `0 … plyIdx` (the game position
+    included) unchanged -/
+theorem perftS_balanced {kt : Killers} {d : Nat} {g g' : GenS} {n : Nat} (h : perftS kt d g = .ok (n, g')) :
+    g'.idx = g.idx ∧ ∀ i ≤ g.idx, g'.stack[i]? = g.stack[i]? :=
+  let hb := (perftS_spec kt d _ g n g' rfl h).1
+  ⟨hb.idx, hb.frame⟩
+
+/-- `PerftTactical` likewise -/
+theorem perftTacticalS_balanced {kt : Killers} {d : Nat} {g g' : GenS} {n : Nat}
+    (h : perftTacticalS kt d g = .ok (n, g')) :
+    g'.idx = g.idx ∧ ∀ i ≤ g.idx, g'.stack[i]? = g.stack[i]? :=
+  let hb := (perftTacticalS_spec kt d _ g n g' rfl h).1
+  ⟨hb.idx, hb.frame⟩
+
+/-- the position the command was asked about is still on top afterwards; the buffer keeps its size -/
+theorem perftS_top {kt : Killers} {d : Nat} {g g' : GenS} {n : Nat} (h : perftS kt d g = .ok (n, g')) :
+    g'.top = g.top ∧ g'.stack.size = g.stack.size :=
+  let hb := (perftS_spec kt d _ g n g' rfl h).1
+  ⟨hb.top, hb.size⟩
+
+theorem perftTacticalS_top {kt : Killers} {d : Nat} {g g' : GenS} {n : Nat}
+    (h : perftTacticalS kt d g = .ok (n, g')) : g'.top = g.top ∧ g'.stack.size = g.stack.size :=
+  let hb := (perftTacticalS_spec kt d _ g n g' rfl h).1
+  ⟨hb.top, hb.size⟩
+
+/-! ### (c) the stack machine computes the functional perft -/
+
+/-- `perftS` on a generator whose top is `p` returns what `perft` (buffer capacity = the stack's size, stack
+    index = `g.idx`) returns on `p` -/
+theorem perftS_refines {kt : Killers} {d : Nat} {g g' : GenS} {n : Nat} {p : Position}
+    (h : perftS kt d g = .ok (n, g')) (hp : g.top = some p) : perft kt g.stack.size d g.idx p = .ok n :=
+  (perftS_spec kt d _ g n g' rfl h).2 p hp
+
+theorem perftTacticalS_refines {kt : Killers} {d : Nat} {g g' : GenS} {n : Nat} {p : Position}
+    (h : perftTacticalS kt d g = .ok (n, g')) (hp : g.top = some p) :
+    perftTactical kt g.stack.size d g.idx p = .ok n :=
+  (perftTacticalS_spec kt d _ g n g' rfl h).2 p hp
+
+/-- conversely the stack machine does not panic where the functional model does not -/
+theorem perftS_complete {kt : Killers} {d : Nat} {g : GenS} {n : Nat} {p : Position}
+    (h : perft kt g.stack.size d g.idx p = .ok n) (hp : g.top = some p) : ∃ g', perftS kt d g = .ok (n, g') :=
+  Model.perftS_complete kt d _ g n p rfl hp h
+
+theorem perftTacticalS_complete {kt : Killers} {d : Nat} {g : GenS} {n : Nat} {p : Position}
+    (h : perftTactical kt g.stack.size d g.idx p = .ok n) (hp : g.top = some p) :
+    ∃ g', perftTacticalS kt d g = .ok (n, g') :=
+  Model.perftTacticalS_complete kt d _ g n p rfl hp h
+
+set_option maxRecDepth 100000 in
+/-- `perft 3` on the stack machine from `c16Kings` (Ka1 v Kh8): 54 leaves, index back at 0, slot 0 still holds
+    the queried position (slots 1, 2 hold the garbage of the last pushed moves); `perft 1` from the start position
+    on a full-size generator: 20 -/
+example :
+    okVal ((perftS Killers.empty 3 (GenS.new c16Kings)).map fun r =>
+      (r.1, r.2.idx, r.2.stack[0]?.map fun p => (p.whiteKing, p.blackKing, p.flags))) =
+      some (54, 0, some (Gen.A1, Gen.H8, Gen.FlagWhiteTurn)) ∧
+    okVal ((perftS Killers.empty 1 (GenS.new startPosition)).map fun r => (r.1, r.2.idx)) = some (20, 0) := by
+  decide +kernel
+
+set_option maxRecDepth 100000 in
+example : (GenS.new c16Kings).top.map (·.flags) = some Gen.FlagWhiteTurn ∧
+    okVal ((perftTacticalS Killers.empty 2 (GenS.new c16Kings)).map fun r => (r.1, r.2.idx)) =
+      some (0, 0) := by decide +kernel
+
+/-! ### (d) the bracket lemma -/
+
+/-- **Bracket lemma.** Let the body `k`, whenever it is run on a generator one level above `g` (index
+    `g.idx + 1`, same buffer), return at that level without having written a slot *below* it (it may rewrite its
+    own top slot and everything above). Then `PushMove(m); k; PopMove()` returns a generator with `g`'s index in
+    which every slot `0 … g.idx` is what it was. This is the shape of every push/pop pair in `Perft`,
+    `alphaBeta`, `quiescence` and the root loop of `startAlphaBeta`. -/
+theorem withMove_balanced {α} {g g' : GenS} {m : Move} {k : GenS → M (α × GenS)} {a : α}
+    (hk : ∀ g1 a g2, g1.idx = g.idx + 1 → g1.stack.size = g.stack.size → k g1 = .ok (a, g2) →
+      g2.idx = g1.idx ∧ g2.stack.size = g1.stack.size ∧ ∀ i < g1.idx, g2.stack[i]? = g1.stack[i]?)
+    (h : withMove g m k = .ok (a, g')) :
+    g'.idx = g.idx ∧ g'.stack.size = g.stack.size ∧ ∀ i ≤ g.idx, g'.stack[i]? = g.stack[i]? :=
+  let hb := Model.withMove_balanced
+    (fun g1 a g2 h1 h2 h3 => let r := hk g1 a g2 h1 h2 h3; ⟨r.1, r.2.1, r.2.2⟩) h
+  ⟨hb.idx, hb.size, hb.frame⟩
+
+/-- the same for the bracket around the flag-returning `pushMove` -/
+theorem withMoveUnchecked_balanced {α} {g g' : GenS} {m : Move} {k : GenS → M (α × GenS)} {a : α}
+    (hk : ∀ g1 a g2, g1.idx = g.idx + 1 → g1.stack.size = g.stack.size → k g1 = .ok (a, g2) →
+      g2.idx = g1.idx ∧ g2.stack.size = g1.stack.size ∧ ∀ i < g1.idx, g2.stack[i]? = g1.stack[i]?)
+    (h : withMoveUnchecked g m k = .ok (a, g')) :
+    g'.idx = g.idx ∧ g'.stack.size = g.stack.size ∧ ∀ i ≤ g.idx, g'.stack[i]? = g.stack[i]? :=
+  let hb := Model.withMoveUnchecked_balanced
+    (fun g1 a g2 h1 h2 h3 => let r := hk g1 a g2 h1 h2 h3; ⟨r.1, r.2.1, r.2.2⟩) h
+  ⟨hb.idx, hb.size, hb.frame⟩
+
+/-- the hypothesis of the bracket lemma is satisfiable by a body that does mutate its own top slot: evaluate the
+    pushed position in place (`lazyEvaluateTop`) -/
+example (blend : Blend) (g g' : GenS) (m : Move) (x : Int)
+    (h : withMove g m (fun g1 => lazyEvaluateTop blend g1 0 0 0) = .ok (x, g')) :
+    g'.idx = g.idx ∧ g'.stack.size = g.stack.size ∧ ∀ i ≤ g.idx, g'.stack[i]? = g.stack[i]? :=
+  withMove_balanced (fun g1 a g2 _ _ hk => by
+    obtain ⟨rfl, _⟩ := lazyEvaluateTop_ok hk
+    exact ⟨rfl, rfl, fun _ _ => rfl⟩) h
+
+/-! ### (e) the in-place turn flip of `LazyEvaluate` -/
+
+/-- the Nat fact behind it: xor-ing with the same mask twice is the identity -/
+theorem xor_twice (flags mask : Nat) : flags ^^^ mask ^^^ mask = flags := xor_xor_cancel flags mask
+
+/-- The literal `LazyEvaluate` (which flips `pos.flags ^= FlagWhiteTurn` in place around the opponent-mobility
+    count and flips back) hands back exactly the position it was given, and its score is `lazyEvaluate`'s.
+    Covers every return path: mate, lazy cut-off and own-mobility-0 return before any flip; the full path flips
+    twice. -/
+theorem lazyEvaluateInPlace_restores {blend : Blend} {p p' : Position} {d α β x : Int}
+    (h : lazyEvaluateInPlace blend p d α β = .ok (x, p')) : p' = p ∧ lazyEvaluate blend p d α β = .ok x :=
+  lazyEvaluateInPlace_ok h
+
+/-- as an equation, panics included: the mutating evaluation *is* the functional one paired with the input -/
+theorem lazyEvaluateInPlace_eq (blend : Blend) (p : Position) (d α β : Int) :
+    lazyEvaluateInPlace blend p d α β = (do let x ← lazyEvaluate blend p d α β; pure (x, p)) :=
+  Model.lazyEvaluateInPlace_eq blend p d α β
+
+/-- evaluating the top of the position stack in place leaves the whole generator as it was -/
+theorem lazyEvaluateTop_restores {blend : Blend} {g g' : GenS} {d α β x : Int}
+    (h : lazyEvaluateTop blend g d α β = .ok (x, g')) :
+    g' = g ∧ ∃ p, g.top = some p ∧ lazyEvaluate blend p d α β = .ok x :=
+  lazyEvaluateTop_ok h
+
+set_option maxRecDepth 100000 in
+/-- `c16Kings` (Ka1 v Kh8) takes the full path (no mate, score inside the window, own mobility 3): the in-place
+    run succeeds with score `0 + 3·5 − 3·5 = 0` (for a blend returning 0) and the flags come back as they were,
+    although they were different in between -/
+example :
+    okVal ((lazyEvaluateInPlace (fun _ _ _ => 0) c16Kings 0 (-1000) 1000).map fun r =>
+      (r.1 == 0, r.2.flags)) = some (true, Gen.FlagWhiteTurn) ∧
+    okVal (countMoves c16Kings) = some 3 ∧
+    (flipTurn c16Kings).flags ≠ c16Kings.flags := by decide +kernel
 
 end Magog.Props.C16
